@@ -21,6 +21,9 @@ func init() {
 }
 
 func checkC10(c *Ctx) {
+	// errcheck-style baseline: a newly discarded error in the package is a dropped protocol/validation step
+	c.checkErrorDiscipline("errors.no-new-dropped-error", "encoding/json", map[string]string{
+	})
 	// (a) string producers on the appendJSON path
 	goQuoters := map[string]bool{"strconv.Quote": true, "strconv.AppendQuote": true, "strconv.QuoteToASCII": true, "strconv.AppendQuoteToASCII": true,
 		"strconv.QuoteToGraphic": true, "strconv.AppendQuoteToGraphic": true, "cue/literal.Form.Quote": true, "cue/literal.Form.Append": true,
